@@ -103,7 +103,7 @@ def cmp_rrt(term, rrt, rtol=1e-9):
     return None
 
 
-def cmp_value(spec, real, sym_rtol=1e-9, num_kind=True):
+def cmp_value(spec, real, sym_rtol=1e-9, num_kind=True, allow_hoisted=False):
     """None if the real value is what the specification predicts, else a reason"""
     k = spec["k"]
     if k in ("int", "float", "complex"):
@@ -210,7 +210,7 @@ def params_cancel(spec, missing):
     return True
 
 
-def cmp_program(spec, prog, sections=("meta", "ops", "modes"), kw_order=False, sym_rtol=1e-9, num_kind=True):
+def cmp_program(spec, prog, sections=("meta", "ops", "modes"), kw_order=False, sym_rtol=1e-9, num_kind=True, allow_hoisted=False):
     """spec: the 'prog' record printed by TLC; prog: real BlackbirdProgram. Returns None or a reason."""
     if "meta" in sections:
         if prog.name != spec["name"]:
@@ -263,7 +263,11 @@ def cmp_program(spec, prog, sections=("meta", "ops", "modes"), kw_order=False, s
     if "vars" in sections:
         rv = prog.variables
         names = [v["n"] for v in spec["vars"]]
-        if set(rv.keys()) != set(names):
+        extra = set(rv.keys()) - set(names)
+        if allow_hoisted:        # a reloaded serialisation also declares the hoisted by-value arrays A0, A1, ...
+            import re
+            extra = {n for n in extra if not re.fullmatch(r"A[0-9]+", n)}
+        if extra or set(names) - set(rv.keys()):
             return "variables %s, specification says %s" % (sorted(rv.keys()), sorted(names))
         for v in spec["vars"]:
             w = cmp_value(v["v"], rv[v["n"]], sym_rtol, num_kind)
